@@ -114,6 +114,40 @@ func funcKey(fn *ssa.Function) string {
 
 // lookupFunc finds a source function by contract key in the module.
 func (w *World) lookupFunc(key string) *ssa.Function {
+	// closure addressed by what it calls: "<parent key>$calls(<callee key>)" = the unique function literal inside
+	// parent (at any depth) that contains a static call of callee. Robust against reordering of literals.
+	if i := strings.Index(key, "$calls("); i >= 0 && strings.HasSuffix(key, ")") {
+		parent := w.lookupFunc(key[:i])
+		if parent == nil {
+			return nil
+		}
+		want := key[i+len("$calls(") : len(key)-1]
+		var found []*ssa.Function
+		var walk func(f *ssa.Function)
+		walk = func(f *ssa.Function) {
+			for _, a := range f.AnonFuncs {
+				hit := false
+				for _, b := range a.Blocks {
+					for _, ins := range b.Instrs {
+						if c, ok := ins.(ssa.CallInstruction); ok {
+							if callee := c.Common().StaticCallee(); callee != nil && funcKey(callee) == want {
+								hit = true
+							}
+						}
+					}
+				}
+				if hit {
+					found = append(found, a)
+				}
+				walk(a)
+			}
+		}
+		walk(parent)
+		if len(found) == 1 {
+			return found[0]
+		}
+		return nil
+	}
 	for path, sp := range w.SSAPkgs {
 		if !strings.HasPrefix(path, modulePath) {
 			continue
